@@ -137,9 +137,9 @@ def check_case(case, col=None):
 
 
 @st.composite
-def dense_call(draw, text_mode):
+def dense_call(draw, text_mode, stream=None):
     exact = draw(st.booleans())
-    pats = draw(e1.pattern_list(text_mode, exact, min_text=2, max_len=5))
+    pats = draw(e1.pattern_list(text_mode, exact, min_text=2, max_len=5, stream=stream))
     return {'op': 'expect_exact' if exact else draw(st.sampled_from(['expect', 'expect_list', 'expect_c'])),
             'pats': pats, 'w': draw(e1.windows()), 'timeout': draw(e1.timeouts()), 'single': False}
 
